@@ -228,6 +228,13 @@ private:
       }
       vec.emplace_back(partition);
     }
+    if (vec.empty()) {
+      // All partitions became bottom. m_partitions must never be
+      // empty: an empty vector satisfies both is_bottom() and
+      // is_top(), and merge_partitions() raises an error on it.
+      set_to_bottom();
+      return;
+    }
     std::swap(m_partitions, vec);
 
     // update partitions
